@@ -15,7 +15,6 @@
 package gomatrixserverlib
 
 import (
-	"encoding/json"
 	"fmt"
 	"slices"
 
@@ -459,7 +458,7 @@ func isControlEvent(e PDU) bool {
 		// Membership events are only control events if the "membership" key in the
 		// content is "leave" or "ban" so we need to extract the content.
 		var content MemberContent
-		if err := json.Unmarshal(e.Content(), &content); err != nil {
+		if err := unmarshalExact(e.Content(), &content); err != nil {
 			break
 		}
 		// If the "membership" key is set and is set to either "leave" or "ban" then
